@@ -56,11 +56,16 @@ class Report:
         self.distinct: set = set()
         self.extra: Dict[str, Any] = {}
         self.deferred_errors: List[str] = []
+        self.follows: set = set()
 
     # ----------------------------------------------------------- recording
-    def rule(self, rule_id: str, description: str, floor: int = 1) -> str:
+    def rule(self, rule_id: str, description: str, floor: int = 1, follows_calls: bool = False) -> str:
+        """follows_calls: the rule interprets the functions its anchor calls (norm / symexec inlining), so a helper introduced by a refactoring is looked into;
+        for the other rules a finding in a function that newly delegates to a helper is withheld (see sa/delegation.py)."""
         if rule_id not in self.rules:
             self.rules[rule_id] = RuleStats(description, floor)
+        if follows_calls:
+            self.follows.add(rule_id)
         return rule_id
 
     def _touch(self, rule: str) -> RuleStats:
@@ -85,9 +90,12 @@ class Report:
         self.distinct.add((rule, construct))
         self.findings.append(Finding(rule, module, qualname, construct, message, where, extra))
 
-    def check(self, cond: bool, rule: str, module: str, qualname: str, construct: str, message: str, where: str = "", detail: str = "") -> bool:
+    def check(self, cond: bool, rule: str, module: str, qualname: str, construct: str, message: str, where: str = "", detail: str = "", definite: bool = False) -> bool:
+        """definite: a failing instance names a construct that is positively wrong (not an expected construct that was not found), see sa/delegation.py."""
         if cond:
             self.ok(rule, construct, detail)
+        elif definite:
+            self.violation(rule, module, qualname, construct, message, where, definite=True)
         else:
             self.violation(rule, module, qualname, construct, message, where)
         return cond
@@ -147,6 +155,31 @@ class Report:
                 self.rules[f.rule].known += 1
             else:
                 new.append(f)
+        # a finding located in a function that now delegates to a helper no rule looked into is withheld (sa/delegation.py): not decided, never an alarm
+        from . import delegation
+
+        withheld: List[Finding] = []
+        if new and not os.environ.get("VERIF_NO_DELEGATION"):
+            try:
+                from .rp2model import model
+
+                touched = set(model().norm.touched)
+            except Exception:  # the model could not be built: nothing was interpreted
+                touched = set()
+            kept = []
+            for f in new:
+                if f.extra.get("definite"):
+                    kept.append(f)  # a positively wrong construct was identified: where other code moved to does not matter
+                    continue
+                helpers = delegation.new_helpers(load_package(), f.module, f.qualname, touched if f.rule in self.follows else set())
+                if helpers:
+                    withheld.append(f)
+                    self.defer_error(f"{f.where or f.module}: rule {f.rule} expected its construct in {f.qualname}, which now delegates to {helpers[:4]} (not followed by this rule): not decided for this shape [{f.message[:160]}]")
+                    self.rules[f.rule].violated -= 1
+                else:
+                    kept.append(f)
+            new = kept
+        self.extra["withheld_for_delegation"] = [{"rule": f.rule, "module": f.module, "qualname": f.qualname, "construct": f.construct} for f in withheld]
         vacuous = [(rid, st) for rid, st in self.rules.items() if st.instances < st.floor]
 
         print(f"== {self.pid} ({self.tier}) static obligations on {load_package().root}")
@@ -184,7 +217,7 @@ class Report:
                         "property": self.pid,
                         "repo": str(load_package().root),
                         "violations": [
-                            {"rule": f.rule, "module": f.module, "qualname": f.qualname, "construct": f.construct, "message": f.message, "where": f.where, **f.extra}
+                            {"rule": f.rule, "module": f.module, "qualname": f.qualname, "construct": f.construct, "message": f.message, "where": f.where, **{k: v for k, v in f.extra.items() if k != "definite"}}
                             for f in new
                         ],
                     },
